@@ -114,7 +114,12 @@ func runC18(x *Exec) {
 					return nil, fmt.Errorf("forward: %w", err)
 				}
 			}
+			var mks []string
 			for k := range model {
+				mks = append(mks, k)
+			}
+			sort.Strings(mks)
+			for _, k := range mks {
 				var v string
 				ok, err := db.Get(ctx, k, &v)
 				if err != nil {
